@@ -177,4 +177,12 @@ let cmd_compile (_p : string) (arg : string) (impl : string) : string * string =
                 | Some nm -> (match sc_get sc.sc_named nm with Some r -> reg_full r | None -> "-")) names) in
         Printf.sprintf "OK %d %s %s" (int_of_nat (length (fst (fst (match compile src ups with Inl (Ok (b, _)) -> ((b.b_events, ()), ()) | _ -> (([], ()), ())))))) (hex_of_bytes img) look in
     let verdict = verdict_of _p arg impl in
+    (* C20, first sentence: a program of the layout stream is a generated program of the documented
+       grammar; when the grammar's compiler (the model, for which acceptance and layout invariance are
+       proved) accepts it, the implementation must produce that image and that name-to-register map *)
+    let verdict =
+      if impl <> "" && String.length _p >= 7 && String.sub _p 0 7 = "expect=" && String.length mr >= 2 && String.sub mr 0 2 = "OK" && impl <> mr then begin
+        let tag = "C20:documented-program-not-compiled-as-the-grammar-says" in
+        if verdict = "ok" || verdict = "-" then "FAIL:" ^ tag else verdict ^ "," ^ tag end
+      else verdict in
     (mr, verdict)
